@@ -1,7 +1,9 @@
 /-
 C05 — Offset packing is sound: every offset resolves to its target or packing fails.
 Property theorems only (vocabulary `ObjWF`, `CopyAt`, `readOffset`, `placements`, `unfold`, `readBack` and helper
-lemmas live in Lemmas/GraphSer.lean; sorts in Lemmas/GraphSort.lean; gate/control flow in Lemmas/GraphPack.lean).
+lemmas live in Lemmas/GraphSer.lean; sorts in Lemmas/GraphSort*.lean and GraphTopo*.lean (counting argument,
+termination); gate/control flow in Lemmas/GraphPack.lean; the simulation maintained by the graph surgery in
+Lemmas/GraphIso*.lean; transport of the reader's view in Lemmas/GraphEnd.lean).
 Model: Model/Graph.lean ⇄ write-fonts/src/graph.rs (Graph::serialize, pack_objects, basic_sort,
 has_overflows, find_overflows, sort_kahn, sort_shortest_distance, assign_spaces_hb,
 isolate_subgraph_hb, duplicate_subgraph, try_isolating_subgraphs), write-fonts/src/write.rs
@@ -13,6 +15,8 @@ import FontVerif.Lemmas.GraphPack
 import FontVerif.Lemmas.GraphSort
 import FontVerif.Lemmas.GraphSort2
 import FontVerif.Lemmas.GraphIso3
+import FontVerif.Lemmas.GraphTopo4
+import FontVerif.Lemmas.GraphEnd
 set_option linter.unusedVariables false
 namespace FontVerif.C05
 open FontVerif FontVerif.Graph
@@ -291,20 +295,101 @@ theorem shortest_order_nodup_of_root_indeg (g g' : Graph) (hroot : (updateParent
     (h : sortShortest g = some g') : g'.order.Nodup ∧ ∀ x ∈ g'.order, Reach g g.root x :=
   sortShortest_enum g g' hroot h
 
-/-
-`kahn_topological` / `shortest_topological` (FULL STATEMENT, NOT PROVED): under the hypotheses of
-`kahn_order_enumerates_reachable`, for every `id ∈ g'.order` and every link `l` of `g.obj id`, the
-index of `l.target` in `g'.order` is larger than the index of `id`; and on an acyclic graph the sort
-returns (`sortKahn g ≠ none`).  What is proved instead (`*_partial` below): positions, not indices —
-for every graph that `pack_objects` accepts, every link has `position(child) ≥ position(parent)`
-(the gate re-checks it), and `serialize` independently re-checks `position(child) ≥
-position(parent) + adjustment` on the layout it computes itself (`serialize_sound`).  Missing: the
-counting argument that `removed[c] = indeg c` forces every parent of `c` to have been processed
-(needs `indeg` = number of links into `c` over all objects, i.e. `update_parents` exact, and the
-order duplicate free).  The harness checks the index form on every generated graph against the real
-code (oracles `kahn-topological`, `shortest-topological`).
--/
-theorem pack_order_topological_partial (g g' : Graph) (fresh fresh' : List Nat)
+/-- split form ⇒ index form: if all parents of every entry of a duplicate-free order stand before
+it, then every link goes strictly forward in the order -/
+theorem forward_of_split (g : Graph) (order : List Nat) (hnd : order.Nodup)
+    (h : ∀ pre c post, order = pre ++ c :: post → ∀ p, IsParent g p c → p ∈ pre) :
+    ∀ id ∈ order, ∀ l ∈ (g.obj id).links, l.target ∈ order →
+      order.idxOf id < order.idxOf l.target := by
+  intro id hid l hl ht
+  obtain ⟨pre, post, hsplit⟩ := List.append_of_mem ht
+  have hp := h pre l.target post hsplit id ⟨l, hl, rfl⟩
+  have hnot : l.target ∉ pre := by
+    rw [hsplit] at hnd
+    have := (List.nodup_append.mp hnd).2.2 l.target
+    intro hm
+    exact this hm l.target List.mem_cons_self rfl
+  rw [hsplit, List.idxOf_append, List.idxOf_append, if_pos hp, if_neg hnot]
+  simp only [List.idxOf_cons_self, Nat.zero_add]
+  exact List.idxOf_lt_length_of_mem hp
+
+/-- **`sort_kahn` is topological** (index form): on a freshly built graph (`from_objects`: stale parent
+cache, distinct object ids) whose root is nobody's target, whenever the sort returns, the order is
+duplicate free, is exactly the set of objects reachable from the root, and every link of every
+object of the order goes strictly forward: `index(target) > index(source)`.  Proof: the counting
+argument — `update_parents` caches exactly one parent per link, `removed_edges[c]` counts the links
+into `c` from processed objects, so `removed_edges[c] = parents(c).len()` forces every parent of `c`
+to have been processed (Lemmas/GraphTopo.lean). -/
+theorem kahn_topological (g g' : Graph) (hn : 1 < g.nodes.length)
+    (hstale : g.parentsInvalid = true) (hK : g.objects.keys.Nodup)
+    (hroot : ∀ kv ∈ g.objects, ∀ l ∈ kv.2.links, l.target ≠ g.root)
+    (h : sortKahn g = some g') :
+    g'.order.Nodup ∧ (∀ x, x ∈ g'.order ↔ Reach g g.root x) ∧
+    ∀ id ∈ g'.order, ∀ l ∈ (g.obj id).links,
+      l.target ∈ g'.order ∧ g'.order.idxOf id < g'.order.idxOf l.target := by
+  obtain ⟨hnd, hiff⟩ := kahn_order_enumerates_reachable g g' hn hstale hroot h
+  refine ⟨hnd, hiff, ?_⟩
+  intro id hid l hl
+  have ht : l.target ∈ g'.order := (hiff _).mpr (Reach.step l ((hiff id).mp hid) hl)
+  exact ⟨ht, forward_of_split g g'.order hnd (sortKahn_topo g g' hn hstale hK hroot h) id hid l hl ht⟩
+
+/-- **`sort_shortest_distance` is topological** (index form; same hypotheses, any number of nodes). -/
+theorem shortest_topological (g g' : Graph)
+    (hstale : g.parentsInvalid = true) (hK : g.objects.keys.Nodup)
+    (hroot : ∀ kv ∈ g.objects, ∀ l ∈ kv.2.links, l.target ≠ g.root)
+    (h : sortShortest g = some g') :
+    g'.order.Nodup ∧ (∀ x, x ∈ g'.order ↔ Reach g g.root x) ∧
+    ∀ id ∈ g'.order, ∀ l ∈ (g.obj id).links,
+      l.target ∈ g'.order ∧ g'.order.idxOf id < g'.order.idxOf l.target := by
+  obtain ⟨hnd, hiff⟩ := shortest_order_enumerates_reachable g g' hstale hroot h
+  refine ⟨hnd, hiff, ?_⟩
+  intro id hid l hl
+  have ht : l.target ∈ g'.order := (hiff _).mpr (Reach.step l ((hiff id).mp hid) hl)
+  exact ⟨ht, forward_of_split g g'.order hnd (sortShortest_topo g g' hstale hK hroot h) id hid l hl ht⟩
+
+/-- **On an acyclic input both sorts return** (no "cycle or something?" panic, loops within their
+budgets): for every object map with distinct ids, closed under its links, acyclic (some rank strictly
+increases along every link) and with every object reachable from the root (`GoodInput`, what
+`TableWriter` produces), `sort_kahn` and `sort_shortest_distance` on `from_objects` return. -/
+theorem sorts_return_on_acyclic (objs : Map Obj) (root : Nat)
+    (hkeys : objs.keys.Nodup)
+    (hclosed : ∀ kv ∈ objs, ∀ l ∈ kv.2.links, l.target ∈ objs.keys)
+    (hreach : ∀ k ∈ objs.keys, Reach (Graph.fromObjects objs root) root k)
+    (hacyclic : ∃ rank : Nat → Nat, ∀ kv ∈ objs, ∀ l ∈ kv.2.links, rank kv.1 < rank l.target) :
+    (∃ g', sortKahn (Graph.fromObjects objs root) = some g') ∧
+    (∃ g', sortShortest (Graph.fromObjects objs root) = some g') :=
+  ⟨sortKahn_returns objs root ⟨hkeys, hclosed, hreach, hacyclic⟩,
+   sortShortest_returns objs root ⟨hkeys, hclosed, hreach, hacyclic⟩⟩
+
+/-- non-vacuity: the diamond 0→{1,2}→3 satisfies every hypothesis of `sorts_return_on_acyclic` (rank = id) -/
+example :
+    let objs : Map Obj := [(0, ⟨4, [], [⟨0, 2, 1, 0⟩, ⟨2, 2, 2, 0⟩]⟩), (1, ⟨2, [], [⟨0, 2, 3, 0⟩]⟩),
+      (2, ⟨2, [], [⟨0, 2, 3, 0⟩]⟩), (3, ⟨1, [], []⟩)]
+    (∃ g', sortKahn (Graph.fromObjects objs 0) = some g') ∧ (∃ g', sortShortest (Graph.fromObjects objs 0) = some g') := by
+  intro objs
+  have r0 : Reach (Graph.fromObjects objs 0) 0 0 := Reach.refl 0
+  have r1 : Reach (Graph.fromObjects objs 0) 0 1 := Reach.step ⟨0, 2, 1, 0⟩ r0 (by decide)
+  have r2 : Reach (Graph.fromObjects objs 0) 0 2 := Reach.step ⟨2, 2, 2, 0⟩ r0 (by decide)
+  have r3 : Reach (Graph.fromObjects objs 0) 0 3 := Reach.step ⟨0, 2, 3, 0⟩ r1 (by decide)
+  refine sorts_return_on_acyclic objs 0 (by decide) (by decide) ?_ ⟨fun x => x, by decide⟩
+  intro k hk
+  have : k = 0 ∨ k = 1 ∨ k = 2 ∨ k = 3 := by simpa [objs, Map.keys] using hk
+  rcases this with rfl | rfl | rfl | rfl
+  · exact r0
+  · exact r1
+  · exact r2
+  · exact r3
+
+/-- non-vacuity of `sorts_return_on_acyclic` / failure side: a 2-cycle behind the root is *not*
+acyclic and `sort_kahn` panics ("cycle or something?" = `none`). -/
+example :
+    sortKahn (Graph.fromObjects [(0, ⟨2, [], [⟨0, 2, 1, 0⟩]⟩), (1, ⟨2, [], [⟨0, 2, 2, 0⟩]⟩),
+      (2, ⟨2, [], [⟨0, 2, 1, 0⟩]⟩)] 0) = none := by
+  decide
+
+/-- position form, for every graph `pack_objects` accepts: no link goes backwards in the layout
+(the gate re-checks it; `serialize` re-checks `position(child) ≥ position(parent) + adjustment`). -/
+theorem pack_positions_forward (g g' : Graph) (fresh fresh' : List Nat)
     (h : packObjects g fresh = some (true, g', fresh')) :
     ∀ kv ∈ g'.objects, ∀ l ∈ kv.2.links, (g'.node kv.1).position ≤ (g'.node l.target).position :=
   fun kv hkv l hl => (pack_success_passes_gate g g' fresh fresh' h kv hkv l hl).1
@@ -363,6 +448,78 @@ example :
       (1, ⟨2, [0, 0], [⟨0, 2, 3, 0⟩]⟩), (2, ⟨1, [7], []⟩), (3, ⟨1, [7], []⟩)] 0
     unfold g' 3 0 = unfold g 3 0 := by
   rfl
+
+/-! ### end to end, at full strength: the bytes are the INPUT graph -/
+
+/-- **End to end.**  If `dump` (= `dump_table` after `make_graph`: `pack_objects`, then `serialize`
+only on success) returns bytes `out` for an input graph `g` whose objects are as `TableData` builds
+them, then — whatever reordering, space assignment, subgraph duplication, id re-mapping, link
+re-pointing and orphan removal the packer went through —
+* a reader that starts at offset 0 with the root and follows every offset (big-endian, with its width,
+  relative to its base `position + adjustment`), guided by the shapes of the *input* objects, sees
+  exactly the unfolding of the *input* graph from its root, to every depth;
+* every object reachable from the root in the input graph is represented: there is a position holding
+  a byte-for-byte copy of it (outside its link fields), every offset stored there fits its width, and
+  a reader starting there sees exactly the unfolding of the input graph from that object.
+Duplication is invisible, nothing reachable is lost, no stored offset exceeds its width. -/
+theorem dump_end_to_end (g : Graph) (fresh : List Nat) (out : List Nat) (hn : 1 < g.nodes.length)
+    (hnd : fresh.Nodup) (hroot : g.root ∉ fresh)
+    (hun : ∀ n ∈ fresh, g.objects.find? n = none ∧ (∀ x, ∀ l ∈ (g.obj x).links, l.target ≠ n) ∧
+      (∀ x, ∀ p ∈ (g.node x).parents, p.1 ≠ n))
+    (hwf : ∀ id o, g.objects.find? id = some o → ObjWF o)
+    (h : dump g fresh = some (some out)) :
+    (∀ fuel, readBack out g fuel 0 g.root = unfold g fuel g.root) ∧
+    (∀ x, Reach g g.root x → ∃ hd, CopyAt out hd (g.obj x) ∧
+      (∀ l ∈ (g.obj x).links, readOffset out hd l ≤ maxValue l.width) ∧
+      ∀ fuel, readBack out g fuel hd x = unfold g fuel x) := by
+  obtain ⟨g', fresh', hp, _, hs⟩ := dump_bytes_only_if_gate g fresh out h
+  obtain ⟨φ, hsim, hr⟩ := packObjects_simulates g fresh true g' fresh' ⟨hnd, hroot, hun⟩ hp
+  have hshape : ∀ x', (g'.obj x').bytes = (g.obj (φ x')).bytes ∧ fieldsOf (g'.obj x') = fieldsOf (g.obj (φ x')) :=
+    fun x' => ⟨(hsim x').1, fields_of_shape _ _ φ (hsim x').2⟩
+  have hwf' : ∀ id o, g'.objects.find? id = some o → ObjWF o := by
+    intro id o ho
+    rw [← obj_of_find ho]
+    exact objWF_shape _ _ (hshape id).1 (hshape id).2 (objWF_obj g hwf _)
+  have hsound := (serialize_sound g' out hwf' hs).2
+  have hread := readBack_eq_unfold g' out hwf' hs
+  obtain ⟨⟨tail, ht⟩, hreach⟩ := pack_reachable_present g g' fresh fresh' hn hp
+  have hview : ∀ x' hd, (x', hd) ∈ placements g' g'.order 0 → ∀ fuel,
+      readBack out g fuel hd (φ x') = unfold g fuel (φ x') := by
+    intro x' hd hm fuel
+    rw [← readBack_simulation out g' g φ hsim fuel hd x', hread fuel x' hd hm, unfold_simulation g' g φ hsim fuel x']
+  refine ⟨?_, ?_⟩
+  · intro fuel
+    rw [← hr]
+    exact hview g'.root 0 (by rw [ht]; simp [placements]) fuel
+  · intro x hx
+    rw [← hr] at hx
+    obtain ⟨x', hx', hφ⟩ := reach_lift g' g φ hsim g'.root x hx
+    obtain ⟨hd, hm⟩ := order_mem_placements g' g'.order 0 x' (hreach x' hx')
+    obtain ⟨o, ho, hcopy, hlinks⟩ := hsound x' hd hm
+    have hobj := obj_of_find ho
+    subst hφ
+    refine ⟨hd, ?_, ?_, hview x' hd hm⟩
+    · rw [← hobj] at hcopy
+      exact copyAt_shape out hd _ _ (hshape x').1 (hshape x').2 hcopy
+    · intro l hl
+      obtain ⟨l', hl', h1, h2, _⟩ := mem_fields _ _ (hshape x').2.symm l hl
+      rw [hobj] at hl'
+      obtain ⟨_, _, _, _, _, hfit, _⟩ := hlinks l' hl'
+      have : readOffset out hd l = readOffset out hd l' := by unfold readOffset; rw [h1, h2]
+      rw [this, ← h2]
+      exact hfit
+
+/-- non-vacuity of `dump_end_to_end`: all hypotheses hold for the two-object graph above -/
+example :
+    let g := Graph.fromObjects [(0, ⟨2, [0, 0], [⟨0, 2, 1, 0⟩]⟩), (1, ⟨1, [9], []⟩)] 0
+    ∀ fuel, readBack [0, 2, 9] g fuel 0 0 = unfold g fuel 0 := by
+  intro g
+  refine (dump_end_to_end g [] [0, 2, 9] (by decide) (by simp) (by simp) (by simp) ?_ (by decide)).1
+  intro id o ho
+  have hm := Map.find?_mem _ _ _ ho
+  have : (id, o) = (0, ⟨2, [0, 0], [⟨0, 2, 1, 0⟩]⟩) ∨ (id, o) = (1, ⟨1, [9], []⟩) := by
+    simpa [g, Graph.fromObjects] using hm
+  rcases this with h | h <;> (simp only [Prod.mk.injEq] at h; obtain ⟨_, rfl⟩ := h; constructor <;> simp)
 
 /-! ### the gate ignores `adjustment`: conservative, never unsound -/
 
